@@ -3,6 +3,7 @@
 # Confirms a seeded change independently: demo passes on clean tree, fails with the patch, whole test-suite still passes;
 # then stores it under /verif/seeded/<seed-id>/ with what was run, and runs the listed checks against it.
 set -u
+export OMP_NUM_THREADS=1 MKL_NUM_THREADS=1   # the suite takes ~35 s single-threaded even on a loaded machine
 SRC=$(readlink -f "$1"); ID=$2; PID=$3; shift 3
 W=$(mktemp -d /tmp/confirm.XXXXXX)
 git -C /repo worktree add --detach "$W/repo" HEAD >/dev/null 2>&1
